@@ -24,6 +24,7 @@
 #define P_adds_d 4
 #define P_adds_transpose_d 5
 #define P_adds_u 6
+#define P_add_fu 7
 #define PV CAT2(P_, PROG)
 void h_etype(void){
   u64 shape[2], idx[4] = {0}, ls[4] = {0}, es[4] = {0}, ld = 0, ed = 0, esz = 0; u8 data[16] = {0}; u32 lv = 0, ev = 0;
